@@ -246,6 +246,17 @@ pub struct Workload {
     /// only keeps the books); plain workloads only: integer delivery, whole blocks, a true length hint
     #[serde(default, skip_serializing_if = "std::ops::Not::not")]
     pub via_mem: bool,
+    /// the sink the resulting stream is emitted through (the same for every mode of the workload):
+    /// 0 = `ByteSink`, 1 = `MemSink<u64>`, 2 = a user sink with the required methods only
+    #[serde(default, skip_serializing_if = "is_zero_u8")]
+    pub emit_sink: u8,
+    /// frame-wise assembly reads its context, buffer and stream between two blocks (digest, counters, `Debug`)
+    #[serde(default, skip_serializing_if = "std::ops::Not::not")]
+    pub observers: bool,
+}
+
+fn is_zero_u8(v: &u8) -> bool {
+    *v == 0
 }
 
 #[derive(Serialize, Deserialize, Clone, Debug, PartialEq)]
@@ -507,6 +518,8 @@ pub fn gen(purpose: Purpose, tier: Tier, seed: u64, index: u64) -> Workload {
         synthetic_silence: false,
         pre: None,
         via_mem: false,
+        emit_sink: 0,
+        observers: false,
     };
     // A small Rice-parameter cap on loud wide samples makes the library build
     // multi-megabyte unary runs per frame (slow, memory hungry) without adding
@@ -769,6 +782,12 @@ pub fn gen(purpose: Purpose, tier: Tier, seed: u64, index: u64) -> Workload {
             w.via_mem = true;
             w.len_hint = true;
         }
+        w.emit_sink = match r3.below(10) {
+            0..=5 => 0,
+            6..=8 => 1,
+            _ => 2,
+        };
+        w.observers = r3.chance(0.5);
     }
     w
 }
@@ -897,6 +916,8 @@ pub fn fresh_small(r: &mut Rng) -> Workload {
         synthetic_silence: false,
         pre: None,
         via_mem: false,
+        emit_sink: 0,
+        observers: false,
     };
     if w.nfull == 0 && w.residue == 0 && r.chance(0.7) {
         w.residue = 1 + r.below(w.block - 1);
